@@ -437,6 +437,7 @@ func checkC01(c *Ctx) {
 	exprS5(emitTwice)
 	exprS6(emitTwice)
 	c01DataDriven(c)
+	c01GlobalsFromText(c, env)
 	if c.Thorough() {
 		// thorough: the whole S1 stratum (every operator over every pair of atoms) and the function
 		// stratum in every syntactic position, not only in a print.
@@ -677,4 +678,68 @@ func orUndef(v data.Value) data.Value {
 		return data.Undefined{}
 	}
 	return v
+}
+
+// c01GlobalsFromText: a globals file binds each name to the value of a constant expression. Every
+// variable-free term of the S1 and S2 strata (and nested calls of S5) is written as a globals line
+// and the value ParseGlobals binds is compared with the reference evaluation (primitive results).
+func c01GlobalsFromText(c *Ctx, env *Env) {
+	seen := map[string]bool{}
+	try := func(_ string, e *E) {
+		set := map[string]bool{}
+		e.vars(set)
+		gm := data.Map{}
+		e.globals(gm)
+		if len(set) > 0 || len(gm) > 0 {
+			return
+		}
+		src := e.src(0)
+		if seen[src] || strings.ContainsAny(src, "\n\r") {
+			return
+		}
+		seen[src] = true
+		if !c.Mine() {
+			return
+		}
+		want, st := env.Eval(e)
+		var got data.Map
+		var err error
+		v := vrt.Run(vrt.Options{Fuel: 2000000}, func() { got, err = soy.ParseGlobals(strings.NewReader("app.VALUE = " + src + "\n")) })
+		ec := exprCase{Stratum: "globals-text", Position: "globals file line", Expr: src, Sketch: sketch(e), Source: "app.VALUE = " + src}
+		obs := "error"
+		if err == nil && got != nil && got["app.VALUE"] != nil {
+			obs, _ = refStr(got["app.VALUE"])
+			obs = kindOf(got["app.VALUE"]) + ":" + obs
+		}
+		if v.Panic != nil || v.Exhausted {
+			obs = "panic/hang"
+		}
+		c.Observe("globals-text\x00"+src, obs)
+		switch {
+		case v.Panic != nil || v.Exhausted:
+			c.Violate("terminates without panic", "panic", "panic:globals-text:"+sketch(e), ec, "value or error", fmt.Sprint(v.Panic, v.Exhausted))
+		case st == stOK:
+			switch want.(type) {
+			case data.Null, data.Bool, data.Int, data.Float, data.String:
+			default:
+				return // globals are primitives: collections are outside the statement
+			}
+			ws, ok := refStr(want)
+			if !ok {
+				return
+			}
+			c.Nontrivial()
+			if obs != kindOf(want)+":"+ws {
+				c.Violate("renders exactly the text the language defines", "mismatch", "globals-text:"+sketch(e), ec, kindOf(want)+":"+ws, obs)
+			}
+		case st == stError:
+			c.Nontrivial()
+			if err == nil {
+				c.Violate("an expression outside the typed domain of its operators is an error", "mismatch", "globals-text-noerror:"+sketch(e), ec, "error", obs)
+			}
+		}
+	}
+	exprS1(try)
+	exprS2(try, false)
+	exprS5(try)
 }
